@@ -16,6 +16,7 @@ import (
 	"crypto/sha512"
 	"crypto/x509"
 	"crypto/x509/pkix"
+	"errors"
 	"fmt"
 	"io"
 	"iter"
@@ -27,6 +28,7 @@ import (
 	"strconv"
 	"strings"
 	"sync"
+	"sync/atomic"
 	"time"
 
 	fdo "github.com/fido-device-onboard/go-fdo"
@@ -64,12 +66,14 @@ var (
 
 // Key returns a cached private key of the given spec for a role ("mfg", "owner", "owner2", "dev0", ...).
 func Key(spec KeySpec, role string) crypto.Signer {
-	keyMu.Lock()
-	defer keyMu.Unlock()
 	id := spec.Name + "/" + role
+	keyMu.Lock()
 	if k, ok := keyCache[id]; ok {
+		keyMu.Unlock()
 		return k
 	}
+	keyMu.Unlock()
+	// generate outside the lock (RSA-3072 takes seconds; callers may warm the cache in parallel); first store wins
 	var k crypto.Signer
 	switch spec.Type {
 	case protocol.Secp256r1KeyType:
@@ -78,6 +82,11 @@ func Key(spec KeySpec, role string) crypto.Signer {
 		k, _ = ecdsa.GenerateKey(elliptic.P384(), rand.Reader)
 	default:
 		k, _ = rsa.GenerateKey(rand.Reader, spec.Bits)
+	}
+	keyMu.Lock()
+	defer keyMu.Unlock()
+	if prev, ok := keyCache[id]; ok {
+		return prev
 	}
 	keyCache[id] = k
 	return k
@@ -109,6 +118,21 @@ func Chain(key crypto.Signer, cn string) []*x509.Certificate {
 	}
 	c, _ := x509.ParseCertificate(der)
 	return []*x509.Certificate{c, caChain[0]}
+}
+
+// faultyTokens lets a check make token invalidation fail (a fault of the token store): while Env.InvalFail > 0 every
+// InvalidateToken call decrements it and returns an error without invalidating anything.
+type faultyTokens struct {
+	protocol.TokenService
+	e *Env
+}
+
+func (t faultyTokens) InvalidateToken(ctx context.Context) error {
+	if atomic.LoadInt32(&t.e.InvalFail) > 0 {
+		atomic.AddInt32(&t.e.InvalFail, -1)
+		return errors.New("injected fault: token store unavailable")
+	}
+	return t.TokenService.InvalidateToken(ctx)
 }
 
 // ---- message hook ----
@@ -265,6 +289,31 @@ func (s jstate) RemoveVoucher(ctx context.Context, guid protocol.GUID) (*fdo.Vou
 	return ov, err
 }
 
+// jsess wraps the TO2 session state and records, in a journal of its own (Env.Sess; the effect journal is unchanged),
+// the replacement values the owner's TO2 session holds: "to2-replacement-guid" (GUID = the new GUID) and "to2-rvinfo"
+// (Info = hex of the CBOR of the rendezvous info).
+type jsess struct {
+	*sqlite.DB
+	j *Journal
+}
+
+func (s jsess) SetReplacementGUID(ctx context.Context, guid protocol.GUID) error {
+	err := s.DB.SetReplacementGUID(ctx, guid)
+	if err == nil {
+		s.j.Add("to2-replacement-guid", fmt.Sprintf("%x", guid[:]), "")
+	}
+	return err
+}
+
+func (s jsess) SetRvInfo(ctx context.Context, rvInfo [][]protocol.RvInstruction) error {
+	err := s.DB.SetRvInfo(ctx, rvInfo)
+	if err == nil {
+		b, _ := cbor.Marshal(rvInfo)
+		s.j.Add("to2-rvinfo", "", fmt.Sprintf("%x", b))
+	}
+	return err
+}
+
 // ---- owner module state machine (per token), as applications write it ----
 
 type OwnerModules func(ctx context.Context, guid protocol.GUID, devmod serviceinfo.Devmod, supported []string) iter.Seq2[string, serviceinfo.OwnerModule]
@@ -344,17 +393,27 @@ type Env struct {
 	OwnerMTU     uint16
 	Reuse        bool
 	RvInfo       [][]protocol.RvInstruction
-	AcceptTTL    func(requested uint32) (uint32, error)
-	devCA        crypto.Signer
-	devCAChain   []*x509.Certificate
-	nDev         int
+	// TO2RvInfo, when not nil, is the rendezvous info the owner service puts into replacement credentials (default: RvInfo)
+	TO2RvInfo [][]protocol.RvInstruction
+	// Sess records what the owner's TO2 sessions stored as replacement GUID / rendezvous info (see jsess)
+	Sess       *Journal
+	AcceptTTL  func(requested uint32) (uint32, error)
+	InvalFail  int32 // number of upcoming InvalidateToken calls that fail (see faultyTokens)
+	devCA      crypto.Signer
+	devCAChain []*x509.Certificate
+	nDev       int
+	// OwnerRole names the cached key (see Key) the owner service signs with: "owner" unless made by NewWithOwner.
+	OwnerRole string
 }
 
 var dirSeq int
 var dirMu sync.Mutex
 
 // New creates a deployment whose manufacturer and owner keys have the given type. baseDir must be writable.
-func New(baseDir string, spec KeySpec) (*Env, error) {
+func New(baseDir string, spec KeySpec) (*Env, error) { return NewWithOwner(baseDir, spec, "owner") }
+
+// NewWithOwner is New with the owner service's key taken from another role ("owner2": the buyer in a resale).
+func NewWithOwner(baseDir string, spec KeySpec, ownerRole string) (*Env, error) {
 	dirMu.Lock()
 	dirSeq++
 	dir := filepath.Join(baseDir, fmt.Sprintf("env-%d-%d", os.Getpid(), dirSeq))
@@ -362,7 +421,7 @@ func New(baseDir string, spec KeySpec) (*Env, error) {
 	if err := os.MkdirAll(dir, 0o755); err != nil {
 		return nil, err
 	}
-	e := &Env{Dir: dir, File: filepath.Join(dir, "fdo.db"), Spec: spec, Journal: &Journal{}}
+	e := &Env{Dir: dir, File: filepath.Join(dir, "fdo.db"), Spec: spec, Journal: &Journal{}, OwnerRole: ownerRole}
 	if err := e.open(true); err != nil {
 		return nil, err
 	}
@@ -380,17 +439,20 @@ func (e *Env) open(first bool) error {
 	_, _ = db.DB().Exec("PRAGMA synchronous=OFF")
 	e.DB = db
 	if first {
-		mk, ok := Key(e.Spec, "mfg"), Key(e.Spec, "owner")
+		mk, ok := Key(e.Spec, "mfg"), Key(e.Spec, e.OwnerRole)
 		if err := db.AddManufacturerKey(e.Spec.Type, mk, Chain(mk, "mfg")); err != nil {
 			return err
 		}
-		if err := db.AddOwnerKey(e.Spec.Type, ok, Chain(ok, "owner")); err != nil {
+		if err := db.AddOwnerKey(e.Spec.Type, ok, Chain(ok, e.OwnerRole)); err != nil {
 			return err
 		}
 		e.devCA = Key(P384, "devca")
 		e.devCAChain = SelfSigned(e.devCA, "device CA")
 	}
 	st := jstate{db, e.Journal}
+	if e.Sess == nil {
+		e.Sess = &Journal{}
+	}
 	e.DIS = &fdo.DIServer[custom.DeviceMfgInfo]{
 		Session: db, Vouchers: st,
 		SignDeviceCertificate: custom.SignDeviceCertificate(e.devCA, e.devCAChain),
@@ -430,9 +492,14 @@ func (e *Env) open(first bool) error {
 	}
 	e.TO1S = &fdo.TO1Server{Session: db, RVBlobs: st}
 	e.TO2S = &fdo.TO2Server{
-		Session: db, Vouchers: st, OwnerKeys: db, VouchersForExtension: st,
-		Modules:         &modSM{e: e, cur: map[string]*modState{}},
-		RvInfo:          func(context.Context, fdo.Voucher) ([][]protocol.RvInstruction, error) { return e.rvInfo(), nil },
+		Session: jsess{db, e.Sess}, Vouchers: st, OwnerKeys: db, VouchersForExtension: st,
+		Modules: &modSM{e: e, cur: map[string]*modState{}},
+		RvInfo: func(context.Context, fdo.Voucher) ([][]protocol.RvInstruction, error) {
+			if e.TO2RvInfo != nil {
+				return e.TO2RvInfo, nil
+			}
+			return e.rvInfo(), nil
+		},
 		ReuseCredential: func(context.Context, fdo.Voucher) (bool, error) { return e.Reuse, nil },
 		MaxDeviceServiceInfoSize: func(context.Context, fdo.Voucher) (uint16, error) {
 			if e.OwnerMTU == 0 {
@@ -441,7 +508,7 @@ func (e *Env) open(first bool) error {
 			return e.OwnerMTU, nil
 		},
 	}
-	e.Handler = &fdohttp.Handler{Tokens: db, DIResponder: e.DIS, TO0Responder: e.TO0S, TO1Responder: e.TO1S, TO2Responder: e.TO2S}
+	e.Handler = &fdohttp.Handler{Tokens: faultyTokens{TokenService: db, e: e}, DIResponder: e.DIS, TO0Responder: e.TO0S, TO1Responder: e.TO1S, TO2Responder: e.TO2S}
 	if e.RT == nil {
 		e.RT = &HookRT{}
 	}
